@@ -35,6 +35,9 @@ type memStore struct {
 	m  map[string][]byte
 }
 
+// the store is the one mutable thing the harness itself plugs into the compiled graph
+func (s *memStore) VerifC09Opaque() {}
+
 func (s *memStore) Get(_ context.Context, id string) ([]byte, bool, error) {
 	s.mu.Lock()
 	defer s.mu.Unlock()
@@ -188,7 +191,7 @@ func buildCkpt(r *lib.Rng, z *zoo) (*object, error) {
 	}
 	shared = spare(shared) // spare capacity: an append to the options inside a run must not reach it
 	return &object{
-		desc: d, depth: 2,
+		desc: d, depth: 2, roots: []any{run, g, shared}, proj: run,
 		mcall: func(sp spec, si int) string {
 			return callTermSuffix(vR(selfTag, 0, sp.In, fmt.Sprintf("in%d", sp.In)),
 				mWithShared(sp.Opt, mshared, mLambdaOpts(si, sp.Opt, "a", "b")), trail)
@@ -488,7 +491,7 @@ func buildComp(r *lib.Rng, z *zoo) (*object, error) {
 	mshared := []string{opT(3, "S"), opT(7, "S", []string{"emb"}), opT(1, "S")}
 	shared = spare(shared) // spare capacity: an append to the options inside a run must not reach it
 	return &object{
-		desc: d,
+		desc: d, roots: []any{run, g, shared}, proj: run,
 		mcall: func(sp spec, si int) string {
 			kv := []string{}
 			if hist {
@@ -610,7 +613,7 @@ func buildReent(r *lib.Rng, z *zoo) (*object, error) {
 	mshared := []string{opT(0, "S", []string{"a"})}
 	shared = spare(shared) // spare capacity: an append to the options inside a run must not reach it
 	return &object{
-		desc: d, depth: 4,
+		desc: d, depth: 4, roots: []any{run, g, shared}, proj: run,
 		mcall: func(sp spec, si int) string {
 			return callTerm(vR(selfTag, 0, sp.In, fmt.Sprintf("in%d", sp.In)),
 				mWithShared(sp.Opt, mshared, mLambdaOpts(si, sp.Opt, "a")), 0)
@@ -727,7 +730,7 @@ func buildMulti(r *lib.Rng, z *zoo) (*object, error) {
 	mshared := []string{opT(0, "S", []string{"sub", "c2"}, []string{"e0", "w1"}), opT(0, "S1", []string{"m1"}, []string{"e1"})}
 	shared = spare(shared) // spare capacity: an append to the options inside a run must not reach it
 	return &object{
-		desc: d, depth: 2,
+		desc: d, depth: 2, roots: []any{run, g, shared}, proj: run,
 		mcall: func(sp spec, si int) string {
 			var own []string
 			if sp.Opt&optLambdaDesignated != 0 {
@@ -810,7 +813,7 @@ func buildEmbed(r *lib.Rng, z *zoo) (*object, error) {
 	}
 	shared = spare(shared) // spare capacity: an append to the options inside a run must not reach it
 	return &object{
-		desc: d, depth: 2,
+		desc: d, depth: 2, roots: []any{run, g, ag, ag2, shared}, proj: run,
 		mcall: func(sp spec, si int) string {
 			var own []string
 			if sp.Opt&optLambdaDesignated != 0 {
